@@ -25,7 +25,7 @@ EXPLANATION = (
     'largest table the men guard admits, aligned to slots and buckets, guarded by the size test, and placed at the top of the table.'
     ' (5) probeDTM answers only for positions without castling rights (the castle mask is tested in the probe or in the position import it requires).'
     ' Added later; (7) every adjacent-duplicate filter of the generator compares each element that has a predecessor with it, and the successor / predecessor lists are sorted before they are returned.'
-    " Added later; (8) in getUnMoves the un-capture moves the black king first and the white king last, as TBIndex::setSquare's special cases require (guard evaluated for every piece number). (7, extended) every neighbour-list loop has such a filter, or the list is cut at std::unique where it is sorted. (9) TBPosition::setPosition succeeds only after a sweep over every piece type that fails on a man that found no slot.")
+    " Added later; (8) in getUnMoves the un-capture moves the black king first and the white king last, as TBIndex::setSquare's special cases require (guard evaluated for every piece number). (7, extended) every neighbour-list loop has such a filter, or the list is cut at std::unique where it is sorted. (9) TBPosition::setPosition succeeds only after a sweep over every piece type that fails on a man that found no slot. (10) the first sweep of the generation stores a value for every index it visits (memory inside the hash table holds stale bytes).")
 UNDECIDED = 'exactness of the distance-to-mate values themselves (retrograde analysis over millions of positions is value-level).'
 ASSUMPTIONS = ['8-bit two\'s complement storage of PositionValue::State (S8)',
                'TBPosition index arithmetic (20*64^(N-1) positions) is read from the constructor\'s constants']
@@ -43,6 +43,7 @@ def run(fb, rep, tier):
     c7_dedup_filters(fb, rep, 'C12.7')
     c8_uncapture_order(fb, rep, 'C12.8')
     c9_all_men_placed(fb, rep, 'C12.9')
+    c10_first_sweep_defines_every_slot(fb, rep, 'C12.10')
 
 
 # ----------------------------------------------------------------------------- .1
@@ -1110,3 +1111,56 @@ def c9_all_men_placed(fb, rep, clause):
                     w = _path_avoiding_block(f, (tb, ti), re_, h)
                 rep.ob(clause, 'K2 must-pass-through', 'setPosition: no successful return after an extraction without passing the remainder sweep', w is None,
                        R.site(f, re_), '' if w is None else 'path that skips the sweep: ' + ' -> '.join('B%s' % x for x in w[-8:]), f.sname)
+
+
+# ----------------------------------------------------------------------------- .10
+
+def c10_first_sweep_defines_every_slot(fb, rep, clause):
+    """K2 the table is generated into memory that held something else before (inside the transposition table: old hash
+    entries).  Every later pass reads `table[idx]` for every index and reacts to what it finds, so the first sweep over the
+    index space must *store* a value for every index it visits - also for the indices that are not canonical positions
+    (INVALID); a slot left as it was is read back as whatever its stale bytes decode to (UNKNOWN, "mated in k"), and the
+    error spreads through the retrograde passes.  On every path from the head of the first sweep to its increment there is
+    a TBStorage::store (paths that leave the function - the time check - excepted)."""
+    cands = [f for f in fb.funcs.values() if f.has_cfg and f.sname == 'TBGenerator::generate' and len(f.blocks) > 30]
+    if rep.need(clause, cands, 'TBGenerator::generate') is None:
+        return
+    n = 0
+    for f in sorted(cands, key=lambda x: x.name):
+        decls = {v['id']: (b, v) for b, i, e in f.events() if e.get('k') == 'decl' for v in e.get('vars', [])}
+        npos = {vid for vid, (b, v) in decls.items() if any(isinstance(x, dict) and x.get('k') == 'call' and cname(x).split('::')[-1] == 'nPositions' for x in walk(v.get('init')))}
+        loops = f.natural_loops()
+        sweeps = []
+        for h, body in loops.items():
+            if any(h in loops[o] and o != h for o in loops):
+                continue
+            c = (f.blocks[h].get('term') or {}).get('cond')
+            if c is not None and any(isinstance(x, dict) and x.get('k') == 'var' and x.get('id') in npos for x in walk(c)):
+                sweeps.append((h, body))
+        if rep.need(clause, sweeps, 'the sweeps over the index space in ' + f.name) is None:
+            continue
+        h, body = min(sweeps, key=lambda x: (f.blocks[x[0]].get('term') or {}).get('ln') or 0)
+        n += 1
+        # the latch: the block of the loop that jumps back to the header
+        latches = [b for b in body if h in f.blocks[b]['succ'] and b != h]
+        is_store = lambda e: e is not None and e.get('k') == 'call' and cname(e).split('::')[-1] == 'store' and 'Storage' in cname(e)
+        # a path header -> latch inside the body without a store
+        from collections import deque
+        start = [s_ for s_ in f.blocks[h]['succ'] if s_ in body]
+        seen, dq, leak = set(), deque((s_, (s_,)) for s_ in start), None
+        while dq and leak is None:
+            b, trail = dq.popleft()
+            if b in seen:
+                continue
+            seen.add(b)
+            if any(is_store(e) for e in f.blocks[b]['ev']):
+                continue
+            if b in latches:
+                leak = trail
+                break
+            for s_ in f.blocks[b]['succ']:
+                if s_ in body and s_ != h:
+                    dq.append((s_, trail + (s_,)))
+        rep.ob(clause, 'K2 must-pass-through', '%s: the first sweep stores a value for every index it visits' % f.name.replace('TBGenerator', 'TBGen'), leak is None,
+               '%s:%s' % (f.file, (f.blocks[h].get('term') or {}).get('ln')), '' if leak is None else 'iteration without a store: ' + ' -> '.join('B%s@%s' % (x, f.block_line(x)) for x in leak[-6:]), f.sname)
+    rep.floor(clause, 'first sweeps of TBGenerator::generate', n, 2)
